@@ -238,4 +238,18 @@ theorem performCore_files (w : Tape.World) (verbose : Bool) (img : Image) (srcs 
     · exact hof
   · exact ⟨st1, rfl, hok1, hk, hof⟩
 
+/-- the freshly formatted image holds no file -/
+theorem fresh_no_file (k j : Nat) (hk : k < 4) (hj : j < 112) :
+    imgFileAt ((List.replicate 4 blankSide).map initFileSystem) k j = none := by
+  unfold imgFileAt
+  have : ((List.replicate 4 blankSide).map initFileSystem).getD k [] = freshSide := by
+    rw [List.getD_eq_getElem?_getD, List.getElem?_map, List.getElem?_replicate, if_pos hk]
+    simp only [Option.map_some, Option.getD_some, freshSide]
+  rw [this, fileAt_inv fresh_inv j hj]
+  unfold entryAt
+  rw [if_neg]
+  · rfl
+  · intro h
+    exact absurd (fresh_slots_unused j hj) ((liveB_iff _).mp h).1
+
 end Moto.Disk
